@@ -34,8 +34,9 @@ func init() {
 				out = append(out, Child{TimeoutS: pick(tier, 400, 3600), Flavour: "race", NCPU: 4, GOMAXPROCS: 4, Shard: 0, NShards: 3, Params: map[string]string{"part": "grid"}})
 				out = append(out, Child{TimeoutS: pick(tier, 400, 3600), Flavour: "race", NCPU: 4, GOMAXPROCS: 2, Shard: 1, NShards: 3, Params: map[string]string{"part": "grid"}})
 				out = append(out, Child{TimeoutS: pick(tier, 400, 3600), Flavour: "race", NCPU: 2, GOMAXPROCS: 1, Shard: 2, NShards: 3, Params: map[string]string{"part": "grid"}})
-				for _, k := range []int{1, 2, 3, 5} {
-					out = append(out, Child{TimeoutS: pick(tier, 400, 3600), Flavour: "race", NCPU: k, Params: map[string]string{"part": "default"}})
+				for i, k := range []int{1, 2, 3, 5} {
+					// the default worker limit is the CPU count, whatever GOMAXPROCS says
+					out = append(out, Child{TimeoutS: pick(tier, 400, 3600), Flavour: "race", NCPU: k, GOMAXPROCS: []int{0, 8, 1, 16}[i], Params: map[string]string{"part": "default"}})
 				}
 				return out
 			}
@@ -43,7 +44,7 @@ func init() {
 				out = append(out, Child{Flavour: "race", NCPU: 1 + i%4, GOMAXPROCS: []int{1, 2, 4, 16}[i%4], Shard: i, NShards: 12, Params: map[string]string{"part": "grid"}})
 			}
 			for k := 1; k <= 16; k++ {
-				out = append(out, Child{TimeoutS: pick(tier, 400, 3600), Flavour: "race", NCPU: k, Params: map[string]string{"part": "default"}})
+				out = append(out, Child{TimeoutS: pick(tier, 400, 3600), Flavour: "race", NCPU: k, GOMAXPROCS: []int{0, 16, 1, 2 * k}[k%4], Params: map[string]string{"part": "default"}})
 			}
 			return out
 		},
@@ -181,12 +182,12 @@ func runC20(c *mon.Ctx) {
 	if part == "default" {
 		w := runtime.NumCPU()
 		maxN := c.Pick(1024, 2048)
-		c.Case(fmt.Sprintf("default/ncpu=%d", w), func() {
+		c.Case(fmt.Sprintf("default/ncpu=%d/gomaxprocs=%d", w, runtime.GOMAXPROCS(0)), func() {
 			for n := 0; n <= maxN; n++ {
 				delay := n % 3
 				c20call(c, n, 0, true, delay, uint64(c.Seed)*131+uint64(n))
 				cl, nt := c20class(n, w, delay, true)
-				c.Eval(fmt.Sprintf("ncpu=%d|%s", w, cl), nt)
+				c.Eval(fmt.Sprintf("ncpu=%d|P=%d|%s", w, runtime.GOMAXPROCS(0), cl), nt)
 			}
 			c.Sample(map[string]interface{}{"call": "Execute(n, work)", "n": "0.." + fmt.Sprint(maxN), "numcpu": w})
 		})
